@@ -197,6 +197,13 @@ func runSurface(s Sink, p plan, restart func(next int)) {
 		if !e.run(cs) {
 			return
 		}
+		if e.pm != nil && e.pm.dead {
+			// a liveness probe failed: nothing more can be learnt from this process
+			if i+1 < p.To {
+				restart(i + 1)
+			}
+			return
+		}
 		if (i-p.From+1)%gs == 0 || i+1 == p.To {
 			if !e.groupEnd(p.Surface) && i+1 < p.To {
 				restart(i + 1)
